@@ -154,7 +154,7 @@ std::vector<T> check_basic(vf::Ctx& c, std::size_t k, Result const& res, Rec<T> 
     if (N >= 1)
     {
         long double const E = static_cast<long double>(res.sum()) / N;
-        ic.close(res.value(), E, 4 * eps * std::fabs(E), "C02:value", "value()");
+        ic.close(res.value(), E, 4 * eps * std::fabs(E) + std::numeric_limits<T>::denorm_min(), "C02:value", "value()");
     }
     if (N >= 2)
     {
@@ -162,7 +162,7 @@ std::vector<T> check_basic(vf::Ctx& c, std::size_t k, Result const& res, Rec<T> 
         long double const a = static_cast<long double>(res.sum_of_squares()) / N, b = E * E;
         long double const var = (a - b) / (N - 1.0L);
         long double const tol = 8 * eps * (a + b) / (N - 1.0L);
-        ic.close(res.variance(), var, tol, "C02:variance", "variance()");
+        ic.close(res.variance(), var, tol + std::numeric_limits<T>::denorm_min(), "C02:variance", "variance()");
         if (var > 16 * tol)
         {
             long double const s = std::sqrt(var);
@@ -198,7 +198,12 @@ void run_t(vf::Ctx& c)
     int const integrator = static_cast<int>(t.pick(3));
     log.pattern = static_cast<int>(t.pick(9));
     log.seed = t.stream_seed();
-    log.scale = static_cast<T>(std::pow(10.0L, static_cast<long double>(static_cast<int>(t.range(0, 8)) - 4)));
+    {
+        int const e = static_cast<int>(t.range(0, 9));
+        log.scale = static_cast<T>(std::pow(10.0L, static_cast<long double>((e == 9 ? 0 : e) - 4)));
+        // PLAIN only (weight 1): values in the subnormal range of T are sampled values like any other
+        if (e == 9 && integrator == 0) { log.scale = std::numeric_limits<T>::denorm_min() * T(256); c.label("subnormal-values"); }
+    }
     log.with_dist = t.pick(3) == 0;
     std::vector<std::size_t> const calls = gen_calls<T>(t);
     std::uint32_t const seed = 1 + static_cast<std::uint32_t>(t.next() % 1000000u);
